@@ -261,7 +261,7 @@ def run_trace(ctx, recs, keys=False):
     tp = os.path.join(ctx.tmp, "fl_%d.json" % len(ctx.cov["tlc_runs"]))
     kp = tp + ".keys"
     core.write_json(tp, recs)
-    r = core.tlc("Trace_Flatten", workers=1, env=light({"TRACE_FILE": tp, "KEYS_OUT": kp}), timeout=3000)
+    r = core.tlc("Trace_Flatten", workers=1, env=(light if len(recs) < 600 else dict)({"TRACE_FILE": tp, "KEYS_OUT": kp}), timeout=3000)
     ctx.add_tlc("Trace_Flatten", r, count_states=False)
     chk = core.tla_tuples(r.out, "CHECKED")
     if len(chk) != 1 or int(chk[0][0]) != len(recs):
@@ -299,7 +299,7 @@ def run(ctx):
     # ---------------------------------------------------------------- code -> spec: random values
     rng = ctx.rng
     recs, metas = [], []
-    nvals = 1500 if quick else 60000
+    nvals = 1500 if quick else 15000
     for i in range(nvals):
         x = rand_value(rng, rng.randint(0, 4))
         out = ffiplatform.flatten(x)
